@@ -469,6 +469,9 @@ def _pm_objects(p):
     if form == "labels":  # distinct, non-contiguous, unsorted objects
         labs = random.Random(p.get("seed", 0)).sample(range(-50, 200), n)
         return (np.array(labs) if p.get("as_array") else list(labs)), labs
+    if form == "float-labels":  # objects that are not integers (half-integers, exactly representable): an enumerator of "objects" must not coerce them
+        labs = [x + 0.5 for x in random.Random(p.get("seed", 0)).sample(range(-20, 60), n)]
+        return (np.array(labs) if p.get("as_array") else list(labs)), labs
     raise ValueError(form)
 
 
@@ -494,7 +497,7 @@ def perfect_matchings_valid_distinct(p):
     out, objs, n = _pm_rows(p)
     seen = set()
     for row in out:
-        row = [int(x) for x in row]
+        row = [(int(x) if float(x) == int(x) else float(x)) for x in row]
         if sorted(row) != sorted(objs):
             raise Violation("perfect_matchings(n=%d, form=%s): row %s does not use every object exactly once" % (n, p.get("form"), row))
         m = frozenset(frozenset((row[2 * k], row[2 * k + 1])) for k in range(n // 2))
@@ -514,7 +517,7 @@ def perfect_matchings_all(p):
         raise Violation("perfect_matchings(n=%d, form=%s) lists %d rows, there are (n-1)!! = %d perfect matchings" % (n, p.get("form"), out.shape[0], exp_count))
     got = set()
     for row in out:
-        row = [int(x) for x in row]
+        row = [(int(x) if float(x) == int(x) else float(x)) for x in row]
         got.add(frozenset(frozenset((row[2 * k], row[2 * k + 1])) for k in range(n // 2)))
     exp = set(_all_matchings(objs))
     if len(exp) != exp_count:
@@ -656,7 +659,7 @@ def cases(tier, seed):
                 add("unique_perms.all_rearrangements", dict(elements=list(ms), presentation="tuple"), "unique_perms/tuple", rep)
     # ---- perfect_matchings: every even n in 2..10, four argument forms
     for n in range(2, (12 if thorough else 10) + 1, 2):
-        forms = [dict(n=n, form="int"), dict(n=n, form="list"), dict(n=n, form="ndarray"), dict(n=n, form="labels", seed=seed), dict(n=n, form="labels", seed=seed + 1, as_array=True)]
+        forms = [dict(n=n, form="int"), dict(n=n, form="list"), dict(n=n, form="ndarray"), dict(n=n, form="labels", seed=seed), dict(n=n, form="labels", seed=seed + 1, as_array=True), dict(n=n, form="float-labels", seed=seed), dict(n=n, form="float-labels", seed=seed + 1, as_array=True)]
         for q in forms:
             ic = "perfect_matchings/%s" % q["form"]
             add("perfect_matchings.valid_distinct", q, ic, n >= 4)
